@@ -163,16 +163,25 @@ def coq_eval_lines(tag, imports, defs, exprs, timeout=900, shard=250, keep=False
     while pending or running:
         while pending and len(running) < NPROC:
             name, path, idxs = pending.pop(0)
+            # output goes to a file: a pipe would block coqc once a shard prints more than the pipe buffer
+            outf = open(os.path.join(GENDIR, name + ".out"), "w+")
             pr = subprocess.Popen(["timeout", str(timeout), "coqc", "-q", "-Q", COQDIR, "TV", "-w", "-all", path],
-                                  cwd=GENDIR, stdout=subprocess.PIPE, stderr=subprocess.STDOUT, text=True,
+                                  cwd=GENDIR, stdout=outf, stderr=subprocess.STDOUT, text=True,
                                   preexec_fn=_big_stack if big_stack else None)
+            pr.outf = outf
             running.append((pr, name, path, idxs))
         still = []
         for pr, name, path, idxs in running:
             if pr.poll() is None:
                 still.append((pr, name, path, idxs))
                 continue
-            out = pr.stdout.read()
+            pr.outf.seek(0)
+            out = pr.outf.read()
+            pr.outf.close()
+            try:
+                os.remove(os.path.join(GENDIR, name + ".out"))
+            except OSError:
+                pass
             body = _parse_string_result(out) if pr.returncode == 0 else None
             if body is None:
                 errors.append((path, pr.returncode, out[-3000:]))
